@@ -74,8 +74,9 @@ def cfg_of(world, p):
     fp = p.filter_process
     if fp is None:
         fproc = {'kind': 'none'}
-    elif isinstance(fp, str) and fp.isdigit():
-        fproc = {'kind': 'pid', 'pid': int(fp)}
+    elif isinstance(fp, str) and fp.isdigit() and str(int(fp)) == fp:
+        # ONE string, compared with the pid (decimal text) and with the process name
+        fproc = {'kind': 'both', 'pid': int(fp), 'name': fp}
     else:
         fproc = {'kind': 'name', 'name': fp}
     return {'ftid': 0 if p.filter_tid is None else world.atid(p.filter_tid), 'fproc': fproc,
@@ -85,7 +86,7 @@ def cfg_of(world, p):
 def apply_cfg(world, p, cfg, as_tuple=False):
     p.filter_tid = None if cfg['ftid'] == 0 else world.ctid(cfg['ftid'])
     fp = cfg['fproc']
-    p.filter_process = None if fp['kind'] == 'none' else (str(fp['pid']) if fp['kind'] == 'pid' else fp['name'])
+    p.filter_process = None if fp['kind'] == 'none' else (str(fp['pid']) if fp['kind'] in ('pid', 'both') else fp['name'])
     p.filter_class = tuple(cfg['fclass']) if as_tuple else list(cfg['fclass'])
     p.filter_subclass = tuple(cfg['fsub']) if as_tuple else list(cfg['fsub'])
 
@@ -160,7 +161,7 @@ def cli_lines(world, dump, command, cfg, workdir, count=None, show_tid=False, co
         args += ['--tid', str(world.ctid(cfg['ftid']))]
     if command in ('traces', 'callstacks', 'logs') and cfg['fproc']['kind'] != 'none':
         fp = cfg['fproc']
-        args += ['--process', str(fp['pid']) if fp['kind'] == 'pid' else fp['name']]
+        args += ['--process', str(fp['pid']) if fp['kind'] in ('pid', 'both') else fp['name']]
     if show_tid:
         args += ['--show-tid']
     if command in ('kevents', 'traces'):
